@@ -125,6 +125,8 @@ def valid_scenario(sc):
         p = tuple(a["path"])
         if p not in created:
             return False
+        if a["kind"] == "option" and len(a["fields"]) != 1:
+            return False
         if a["kind"] == "command":
             idx = n_children[p]
             n_children[p] += 1
